@@ -210,11 +210,13 @@ def numbers_equal(a, b):
     return True
 
 
-def typed_terms(c, n, bonds, angles, dihedrals, types, exclude, rules):
+def typed_terms(c, n, bonds, angles, dihedrals, types, exclude, rules, reuse=None):
     """runs the three typing functions; returns per kind a dict canonical-term -> (type id, coefficient text), or the
     exception raised"""
     from mofun import rough_uff as U
-    a = make_atoms(n, bonds, angles, dihedrals)
+    a = make_atoms(n, bonds, angles, dihedrals) if reuse is None else reuse
+    if reuse is not None:
+        a.bonds, a.angles, a.dihedrals = np.array(bonds), np.array(angles).reshape(-1, 3), np.array(dihedrals).reshape(-1, 4)
     excl = None if exclude is None else set(exclude)
     try:
         with silenced():
@@ -239,6 +241,7 @@ def typed_terms(c, n, bonds, angles, dihedrals, types, exclude, rules):
             d[t] = (int(tid), str(coeffs[int(tid)]))
         out[kind] = d
         out[kind + "_ntypes"] = len(coeffs)
+    out["_atoms"] = a
     return out, None
 
 
@@ -356,6 +359,13 @@ def oracle(c, stats):
         stats.count("outcome:unsupported-dihedral")
         return
     Mcount = check_typing(c, out1, n, bonds, angles, dihedrals, types, c["exclude"], rules, "original naming")
+    # the same Atoms object typed again with other UFF types (rotated through the palette): nothing may be remembered
+    pal = list(dict.fromkeys(types))
+    if len(pal) > 1:
+        types3 = [pal[(pal.index(t) + 1) % len(pal)] for t in types]
+        out3, exc3 = typed_terms(c, n, bonds, angles, dihedrals, types3, c["exclude"], rules, reuse=out1["_atoms"])
+        if exc3 is None:
+            check_typing(c, out3, n, bonds, angles, dihedrals, types3, c["exclude"], rules, "second typing of the same object with other types")
     check_typing(c, out2, n, rb, ra, rd, rtypes, rex, rules, "renamed")
     inv = {v: k for k, v in enumerate(pi)}      # pi[k] = v  ->  inv[v] = k
     for kind in ("bond", "angle", "dihedral"):
